@@ -88,6 +88,22 @@ class Call:
 #   ('uninit', local)                 no definition found
 
 
+def _has_foreign_loop(t, l, _depth=0):
+    if not isinstance(t, tuple) or _depth > 60:
+        return False
+    if t and t[0] == "loop":
+        return t[1] != l
+    for x in t:
+        if isinstance(x, tuple):
+            if _has_foreign_loop(x, l, _depth + 1):
+                return True
+        elif isinstance(x, list):
+            for y in x:
+                if isinstance(y, tuple) and _has_foreign_loop(y, l, _depth + 1):
+                    return True
+    return False
+
+
 def is_call(t, *suffixes):
     if not (isinstance(t, tuple) and t and t[0] == "call"):
         return False
@@ -581,6 +597,14 @@ class Body:
                     uniq.append(a)
             t = uniq[0] if len(uniq) == 1 else ("phi", uniq)
         t = self._with_partial_stores(l, t)
+        # a term that mentions a local still being computed further up (("loop", x), x != l) is relative to where *that*
+        # computation cut the cycle: it is handed back but not remembered, so that a later question about this local
+        # is answered on its own terms (otherwise the answer would depend on which local was asked about first)
+        open_ = self.__dict__.setdefault("_open_budget", [200000])
+        if open_[0] > 0 and _has_foreign_loop(t, l):
+            open_[0] -= 1
+            del self._terms[l]
+            return t
         self._terms[l] = t
         return t
 
@@ -611,7 +635,7 @@ class Body:
                 if fname is None or fname not in names:
                     continue
                 k = names.index(fname)
-                extra = [self.rvalue_term(rv) for rv in idx[(l, fi)]]
+                extra = self._ps_terms(idx[(l, fi)])
                 alts = []
                 for x in [ops[k]] + extra:
                     if x not in alts:
@@ -754,15 +778,48 @@ class Body:
                 pr = dst["proj"]
                 if len(pr) == 1 and isinstance(pr[0], dict) and "f" in pr[0] and not pr[0].get("variant"):
                     idx.setdefault((dst["l"], pr[0]["f"]), []).append(rv)
+            # a closure that captured `&mut local.field` (closures capture disjoint fields) and stores through it
+            defs = self.defs()
+            for i, blk in enumerate(self.blocks):
+                if blk["cleanup"]:
+                    continue
+                for j, s in enumerate(blk["stmts"]):
+                    if s["k"] != "assign" or "agg" not in s["rv"]:
+                        continue
+                    a = s["rv"]["agg"]
+                    if a["kind"] != "closure" or a.get("def") not in self.facts.raw["bodies"]:
+                        continue
+                    names = a.get("fields", [])
+                    for k, op in enumerate(s["rv"]["ops"]):
+                        pl = op.get("move") or op.get("copy")
+                        if pl is None or pl["proj"] or k >= len(names):
+                            continue
+                        for dd in defs.get(pl["l"], []):
+                            if dd[0] != "stmt":
+                                continue
+                            rv2 = self.blocks[dd[1]]["stmts"][dd[2]]["rv"]
+                            if "ref" in rv2 and rv2["mut"] and len(rv2["ref"]["proj"]) == 1 and isinstance(rv2["ref"]["proj"][0], dict) \
+                                    and "f" in rv2["ref"]["proj"][0] and not rv2["ref"]["proj"][0].get("variant"):
+                                idx.setdefault((rv2["ref"]["l"], rv2["ref"]["proj"][0]["f"]), []).append(
+                                    {"closure_store": ("closure", a["def"], names[k], i, j)})
             self._ps_index = idx
         rvs = idx.get(key)
         if not rvs:
             return []
         guard.add(key)
         try:
-            return [self.rvalue_term(rv) for rv in rvs]
+            return self._ps_terms(rvs)
         finally:
             guard.discard(key)
+
+    def _ps_terms(self, rvs):
+        out = []
+        for rv in rvs:
+            if "closure_store" in rv:
+                out.extend(self._closure_store_terms(rv["closure_store"]))
+            else:
+                out.append(self.rvalue_term(rv))
+        return out
 
     def _field(self, t, e):
         name = e["name"] if e["name"] is not None else str(e["f"])
@@ -778,6 +835,28 @@ class Body:
         # captured variable of a closure / coroutine whose body was inlined here (normalize.py)
         if t[0] == "agg" and t[1] in ("closure", "coroutine", "coroutine_closure") and e.get("of") == t[2] and name in t[4]:
             return t[5][t[4].index(name)]
+        # several definitions, all of them freshly built tuples / structs of one type (an accumulator pair that is rebuilt on
+        # every turn of a loop): the field of each
+        if t[0] == "phi" and not e.get("variant"):
+            alts = phi_alts(t)
+            if len(alts) > 1 and all(a[0] == "agg" and a[1] == "tuple" for a in alts) and len(set(len(a[5]) for a in alts)) == 1:
+                sel = []
+                for a in alts:
+                    x = None
+                    if a[1] == "tuple":
+                        try:
+                            x = a[5][int(e["f"])]
+                        except Exception:
+                            x = None
+                    elif name in a[4]:
+                        x = a[5][a[4].index(name)]
+                    if x is None:
+                        sel = None
+                        break
+                    if x not in sel:
+                        sel.append(x)
+                if sel:
+                    return sel[0] if len(sel) == 1 else ("phi", sel)
         if t[0] == "downcast":
             inner = t[1]
             v = t[2]
